@@ -20,6 +20,7 @@ import (
 	"time"
 
 	"github.com/google/gopacket"
+	gafp "github.com/google/gopacket/afpacket"
 	"github.com/v-byte-cpu/sx/pkg/packet"
 	sxafp "github.com/v-byte-cpu/sx/pkg/packet/afpacket"
 	"verifharness/hlib"
@@ -50,6 +51,16 @@ type srcOut struct {
 	Reported   int      `json:"reported"`
 	ReportedEx []string `json:"reported_examples"`
 	ReadErrs   []srcErr `json:"read_errors"`
+	// link-down scenario: what gopacket's own handle on the same interface returned once the link was
+	// down (the real library value, before the Source's translation), the class the property gives
+	// it, and what the receiver had reported before / after the link went down
+	LinkDown       bool   `json:"link_down,omitempty"`
+	ControlErr     string `json:"control_err,omitempty"`
+	ControlText    string `json:"control_text,omitempty"`
+	ControlAllowed string `json:"control_allowed,omitempty"`
+	ReportedBefore int    `json:"reported_before,omitempty"`
+	ReportedAfter  int    `json:"reported_after,omitempty"`
+	ReadsAfter     int    `json:"reads_after,omitempty"`
 }
 
 type recReader struct {
@@ -225,10 +236,137 @@ func runSource(sc srcScenario, waitMS int) srcOut {
 	return o
 }
 
+// runLinkDown: a Source on one end of a veth pair of the namespace, the receiver running; after 300 ms
+// of a healthy, quiet link the interface is set down. gopacket's poll then fails (POLLERR, ENETDOWN
+// pending on the socket): a second, plain gopacket handle on the same interface tells which value the
+// library returns for that; the receiver over the Source must treat the failure as the property says
+// for that value (an unknown failure: reported, reading continues).
+func runLinkDown(waitMS int) srcOut {
+	o := srcOut{Kind: "source", Class: "real-source", Scenario: "link-down-while-receiving", LinkDown: true, ClosedAtMS: -1,
+		CancelAtMS: -1, ReportedEx: []string{}, ReadErrs: []srcErr{}, WaitedMS: waitMS}
+	ifn, peer := "vc20d0", "vc20d1"
+	run := func(args ...string) error {
+		out, err := exec.Command(args[0], args[1:]...).CombinedOutput()
+		if err != nil {
+			return fmt.Errorf("%s: %v: %s", strings.Join(args, " "), err, bytes.TrimSpace(out))
+		}
+		return nil
+	}
+	for _, c := range [][]string{{"ip", "link", "add", ifn, "type", "veth", "peer", "name", peer},
+		{"ip", "link", "set", ifn, "up"}, {"ip", "link", "set", peer, "up"}} {
+		if err := run(c...); err != nil {
+			o.Skipped = "cannot create a veth pair: " + err.Error()
+			return o
+		}
+	}
+	defer exec.Command("ip", "link", "del", ifn).Run()
+	src, err := sxafp.NewPacketSource(ifn, false)
+	if err != nil {
+		o.Skipped = "cannot open an AF_PACKET source on the veth: " + err.Error()
+		return o
+	}
+	control, err := gafp.NewTPacket(gafp.SocketRaw, gafp.OptInterface(ifn), gafp.OptPollTimeout(100*time.Millisecond))
+	if err != nil {
+		src.Close()
+		o.Skipped = "cannot open the control handle on the veth: " + err.Error()
+		return o
+	}
+	defer control.Close()
+	rr := &recReader{src: src, errs: map[string]*srcErr{}}
+	proc := &countProc{}
+	ctx, cancel := context.WithCancel(context.Background())
+	defer cancel()
+	errc := packet.NewReceiver(rr, proc).ReceivePackets(ctx)
+	ended := make(chan struct{})
+	var mu sync.Mutex
+	down := false
+	go func() {
+		for e := range errc {
+			mu.Lock()
+			o.Reported++
+			if down {
+				o.ReportedAfter++
+			} else {
+				o.ReportedBefore++
+			}
+			if len(o.ReportedEx) < 3 {
+				o.ReportedEx = append(o.ReportedEx, e.Error())
+			}
+			mu.Unlock()
+		}
+		close(ended)
+	}()
+	time.Sleep(300 * time.Millisecond)
+	mu.Lock()
+	down = true
+	mu.Unlock()
+	rr.mu.Lock()
+	readsBefore := rr.reads
+	rr.closed = true // marks the errors of reads that start from here on ("after_close" = after the link went down)
+	rr.mu.Unlock()
+	if err := run("ip", "link", "set", ifn, "down"); err != nil {
+		o.Skipped = "cannot set the link down: " + err.Error()
+		cancel()
+		<-ended
+		src.Close()
+		return o
+	}
+	// what the library itself says about the socket now
+	for t0 := time.Now(); time.Since(t0) < 2*time.Second; {
+		_, _, err := control.ReadPacketData()
+		if err != nil && err != gafp.ErrTimeout {
+			o.ControlText = err.Error()
+			for _, n := range sentinelNames {
+				if err == sentinelValues[n] {
+					o.ControlErr = n
+					for _, a := range alphabet {
+						if a.D.K == "sent" && a.D.Name == n {
+							o.ControlAllowed = a.Allowed
+						}
+					}
+				}
+			}
+			break
+		}
+	}
+	// reported, and reported again (reading continues)?
+	for t0 := time.Now(); time.Since(t0) < time.Duration(waitMS)*time.Millisecond; time.Sleep(10 * time.Millisecond) {
+		mu.Lock()
+		n := o.ReportedAfter
+		mu.Unlock()
+		if n >= 2 {
+			break
+		}
+	}
+	t0 := time.Now()
+	cancel()
+	select {
+	case <-ended:
+		o.Ended = true
+		o.EndedMS = int(time.Since(t0).Milliseconds())
+	case <-time.After(time.Duration(waitMS) * time.Millisecond):
+	}
+	src.Close()
+	mu.Lock()
+	defer mu.Unlock()
+	rr.mu.Lock()
+	defer rr.mu.Unlock()
+	o.Reads, o.ReadsAfter, o.Frames = rr.reads, rr.reads-readsBefore, proc.n
+	for _, e := range rr.errs {
+		o.ReadErrs = append(o.ReadErrs, *e)
+	}
+	sort.Slice(o.ReadErrs, func(i, j int) bool {
+		return o.ReadErrs[i].Text+fmt.Sprint(o.ReadErrs[i].AfterClose) < o.ReadErrs[j].Text+fmt.Sprint(o.ReadErrs[j].AfterClose)
+	})
+	return o
+}
+
 // realSourceInner runs every scenario (called inside the namespace) and writes one row each.
 func realSourceInner(outPath string, waitMS int) {
 	w := hlib.NewOut(outPath)
 	defer w.Close()
+	linkDown := make(chan srcOut, 1)
+	go func() { linkDown <- runLinkDown(waitMS) }() // on its own veth pair
 	outs := make([]srcOut, len(srcScenarios))
 	// the scenarios without traffic first: all sources listen on the same lo
 	for _, traffic := range []bool{false, true} {
@@ -248,6 +386,7 @@ func realSourceInner(outPath string, waitMS int) {
 	for _, o := range outs {
 		w.Put(o)
 	}
+	w.Put(<-linkDown)
 }
 
 // realSource creates a private network namespace with `lo` up, runs this binary inside it and
@@ -313,6 +452,9 @@ func closedSourceErrors(rows []srcOut) []int {
 	seen := map[int]bool{}
 	var out []int
 	for _, o := range rows {
+		if o.LinkDown {
+			continue // there "after_close" marks reads after the link went down
+		}
 		for _, e := range o.ReadErrs {
 			if !e.AfterClose || e.Name == "" {
 				continue
